@@ -6,9 +6,9 @@ individual by individual, a rejected proposal restores exactly the pre-proposal 
 keeps exactly the proposed view."""
 from contracts.samplers import *
 from contracts import state_theory as T
-from contracts.c01 import RevertFull, RevertPartial, ToCache, LEMMAS as _C01_LEMMAS
+from contracts.c01 import RevertFull, RevertPartial, ToCache, SetItemTensors, LEMMAS as _C01_LEMMAS
 
-UNITS = [IndividualSample({"C02"}), PopulationSample({"C02"}), RevertFull(), RevertPartial(), ToCache()]
+UNITS = [IndividualSample({"C02"}), PopulationSample({"C02"}), RevertFull(), RevertPartial(), ToCache(), SetItemTensors()]
 CALLEES = [ShuffledIndices()]
 engine_setup = T.engine_setup
 
